@@ -24,7 +24,17 @@ def _lst(x):
         return None
 
 
+PROTECTED = ('tprod', 'pump', 'hext', 'hextkwh', 'pumpkwh', 'remaining', 'hprod', 'elec', 'net', 'firstlaw', 'hpelec', 'hpeleckwh', 'cool', 'dhgeo', 'dhng')
+
+
 def project(stage, model, ctx):
+    if stage == 'calculated' and ctx.get('c02'):
+        try:
+            fin = snapshot(model)
+            ctx['c02']['final'] = {k: fin[k] for k in PROTECTED if k in fin and k in ctx['c02']}
+        except Exception:  # noqa: BLE001
+            pass
+        return
     if stage != 'surfaceplant_calculated':
         return
     fam = type(model.surfaceplant).__name__
@@ -165,6 +175,18 @@ def build_jobs(tier: str) -> list:
         if tier == 'quick' and name.startswith(('example_SBT',)):
             continue
         jobs.append((f'example:{name}', text))
+    # every plant class once more with add-ons that contribute heat and electricity (and with S-DAC-GT): the downstream economics
+    # modules work on the plant's energy series, and must leave the balanced flows alone
+    for k, (eu, pt) in enumerate([(2, 5), (2, 6), (2, 7), (2, 9), (1, 1), (1, 3), (31, 2), (42, 4), (52, 1)] * (1 if tier == 'quick' else 4)):
+        p = gen.base(rng, rng.choice([4, 3]), eu, pt, (k % 3) + 1, lifetime=rng.choice([5, 10, 20]), steps=rng.choice([1, 2, 4]))
+        gen.add_prices(p, rng)
+        if k % 3 != 2:
+            gen.add_addons(p, rng, 2)
+            p['AddOn Heat Gained 1'] = gen.fmt(rng.uniform(1e5, 5e6))
+            p['AddOn Electricity Gained 2'] = gen.fmt(rng.uniform(1e5, 5e6))
+        else:
+            p['Do S-DAC-GT Calculations'] = 'True'
+        jobs.append((f'downstream{k}:eu{eu}/pt{pt}', gen.to_text(p)))
     return jobs
 
 
